@@ -456,8 +456,12 @@ def run_layer(case, _probe=None):
     e2 = np.abs(sa - sb).max() / np.abs(sb).max()
     if not np.isfinite(e2):
         return Outcome(failure("nonfinite", "layered scattering matrix not finite", mode=mode), True, labels)
-    if not (e2 <= TOL_L * TOLX):
-        out = verdict("layered_reduction_scatmatrix", e2, "scatmatrix")
+    # the two objects are summed to different Wiscombe orders (outer x of the shell vs x of the bare sphere): the share of
+    # the orders in between, estimated from the textbook series at the detector points (trunc, above), applies to the
+    # far-field amplitudes as well
+    trunc_rel = 3.0 * trunc / scale if scale > 0 else 0.0
+    if not (e2 <= (TOL_L + trunc_rel) * TOLX):
+        out = verdict("layered_reduction_scatmatrix", max(e2 - trunc_rel, 0.0), "scatmatrix")
         if out is not None:
             return out
         ill = True
